@@ -298,9 +298,14 @@ func Verif_C18_as_path() {
 // symbolic-length harnesses cut at their unwinding bound.
 var c18Counts = []int{1, 2, 63, 64, 65, 127, 128, 255}
 
-func Verif_C18_as_path_boundary_counts() {
-	verifNote("AS_PATH with 1..2 segments whose AS-number counts are drawn from {1,2,63,64,65,127,128,255} (element loops run concretely), segment types and all AS-number bytes symbolic, flags well-formed")
-	ns := 1 + verifChoose("segments", 2)
+func VerifT_C18_as_path_boundary_counts() {
+	verifNote("AS_PATH with 1 segment of {1,63,64,65,255} AS numbers (quick) / 1..2 segments of {1,64,255} (thorough) (element loops run concretely), segment types and all AS-number bytes symbolic, flags well-formed")
+	ns := 1
+	counts := []int{1, 63, 64, 65, 255}
+	if verifTier() >= 1 {
+		ns = 1 + verifChoose("segments", 2)
+		counts = []int{1, 64, 255}
+	}
 	var val []byte
 	type seg struct {
 		typ uint8
@@ -309,7 +314,7 @@ func Verif_C18_as_path_boundary_counts() {
 	}
 	var segs []seg
 	for s := 0; s < ns; s++ {
-		cnt := c18Counts[verifChoose("count", len(c18Counts))]
+		cnt := counts[verifChoose("count", len(counts))]
 		typ := verifU8("segtype")
 		verifAssume(verifOr(typ == 1, typ == 2))
 		segs = append(segs, seg{typ, cnt, len(val)})
@@ -341,7 +346,7 @@ func Verif_C18_as_path_boundary_counts() {
 	verifCover("long-as-path")
 }
 
-func Verif_C18_set_attrs_boundary_counts() {
+func VerifT_C18_set_attrs_boundary_counts() {
 	verifNote("COMMUNITIES / CLUSTER_LIST / LARGE_COMMUNITIES with element counts from {1,2,63,64,65,127,128,255} (+/- 1 byte), contents symbolic; error notifications carry > 255-byte values in extended-length form")
 	cnt := c18Counts[verifChoose("count", len(c18Counts))]
 	delta := verifChoose("length-delta", 3) - 1 // -1, 0, +1 byte
